@@ -175,9 +175,16 @@ def _run(sel, jobs=16):
 def main(argv, seed):
     from .check import ALL_IDS
     variants = load_variants()
+    only = None
+    if "--only" in argv:
+        i = argv.index("--only")
+        only = argv[i + 1]
+        del argv[i:i + 2]
     ids = [a for a in argv if a.startswith("C")] or ALL_IDS
     sel = []
     for v in variants:
+        if only is not None and only not in v["id"]:
+            continue
         if v["kind"] == "mutant":
             props = [p for p in v["props"] if p in ids]
         else:
